@@ -203,8 +203,13 @@ package parser
 //@   summary result.Type == ILLEGAL && libcall(strings.HasPrefix, result.Literal, "unterminated_string:") ==> len(result.Literal) > 20
 //@   loop 1 invariant wfL(l) && l.position > old(l.position)
 //@   loop 1 decreases len(l.input) - l.position
+
+// `/` is a path after a non-value token and a division after a value: both lexers must agree on what a
+// value token is, or the expanded text of `xs[0]/n` lexes differently from the compact one (C18)
+//@ spec func valueTok(t TokenType) bool = t == IDENT || t == INTEGER || t == FLOAT || t == STRING || t == RPAREN || t == RBRACKET || t == TRUE || t == FALSE
 //@ func (*Lexer).Tokenize
 //@   strict
+//@   assertat "l.lastTokenLiteral = tok.Literal" l.lastTokenWasValue == valueTok(tok.Type)
 //@   requires wfL(l)
 //@   loop 1 invariant wfL(l)
 //@   loop 1 decreases len(l.input) - l.position
@@ -265,6 +270,7 @@ package parser
 //@   loop 1 decreases len(l.input) + 2 - l.position
 //@ func (*ExpandedLexer).Tokenize
 //@   strict
+//@   assertat "l.lastTokenLiteral = tok.Literal" l.lastTokenWasValue == valueTok(tok.Type)
 //@   requires wfX(l)
 //@   loop 1 invariant wfX(l)
 //@   loop 1 decreases len(l.input) - l.position
